@@ -27,6 +27,8 @@ VARIANTS = {
     "plain": {},
     "throttled": {"server_kwargs": {"read_speed_limit": 4, "write_speed_limit": 4}},
     "slow-um": {"slow_um": True},
+    # accounts with one connection each: the place in the account is one more thing a session holds
+    "limited": {"limited": True},
     # the control connection comes in over IPv6 (PASV is refused there, EPSV served)
     "ipv6": {"host": "::1"},
 }
@@ -34,7 +36,19 @@ VARIANT_SCRIPTS = {
     "throttled": ["retr", "stor", "list", "rest-retr", "retr-then-quit"],
     "slow-um": ["login-only", "pwd", "retr", "retr-then-quit", "relogin"],
     "ipv6": ["pasv-twice", "pasv-no-transfer", "list", "retr"],
+    "limited": ["login-only", "relogin", "user-only", "bad-pass", "user-then-other", "retr"],
 }
+# scripts of the variants only
+EXTRA_SCRIPTS = {
+    "user-only": ["USER bob"],
+    "bad-pass": ["USER bob", "PASS bad", "USER bob"],
+    "user-then-other": ["USER bob", "PASS pw", "USER carol", "USER anonymous"],
+}
+
+
+def _limited_users(a, base):
+    return [a.User(base_path=base, maximum_connections=1), a.User("bob", "pw", base_path=base, maximum_connections=1),
+            a.User("carol", "pw", base_path=base, maximum_connections=1)]
 
 
 def _slow_users(a, base):
@@ -47,14 +61,14 @@ class Cut(Exception):
 
 
 def run_cut(case, chooser):
-    script = corpus.SCRIPTS[case["script"]]
+    script = {**corpus.SCRIPTS, **EXTRA_SCRIPTS}[case["script"]]
     n = 2 if case.get("second") else 1
     spy = backends.SpyControl()
     variant = VARIANTS[case.get("variant", "plain")]
     skw = dict(corpus.SERVER_KW)
     skw.update(variant.get("server_kwargs", {}))
     rig = Rig(chooser=chooser, n_sessions=n, tree=corpus.TREE, window=case.get("window", 1), spy=spy,
-              server_kwargs=skw, users=_slow_users if variant.get("slow_um") else None,
+              server_kwargs=skw, users=_slow_users if variant.get("slow_um") else _limited_users if variant.get("limited") else None,
               via_run=case["cut"] == "cancel-run", host=variant.get("host", "127.0.0.1"), **BACKENDS[case["backend"]])
     problems = []
     try:
@@ -194,6 +208,19 @@ def run_cut(case, chooser):
                                      "data": None if s1.data is None else s1.data.received.decode("latin-1")})
                 s1.peer.vanish()
                 w.settle(grace)
+            if variant.get("limited") and n == 1 and not problems:
+                # the place the ended session had in its account is free again: each account can be logged into
+                for name, pw in (("anonymous", None), ("bob", "pw"), ("carol", "pw")):
+                    s = Session(w, name="after-" + name, advance=grace)
+                    s.connect()
+                    r = s.cmd("USER " + name)
+                    if pw is not None and r and r[-1][0] == "331":
+                        r = s.cmd("PASS " + pw)
+                    if not r or r[-1][0] != "230":
+                        problems.append({"kind": "account-still-occupied-by-ended-session", "account": name,
+                                         "reply": r[-1] if r else None})
+                    s.peer.vanish()
+                    w.settle(grace)
             for p in ledger.closed_problems(w, rig.server, spy=spy, advance=grace):
                 problems.append(p)
         else:
